@@ -429,6 +429,12 @@ pub enum QuadContent {
     /// weighted i.i.d. symbols rearranged so that the sampled occurrences (number 8192*k + {-1,0,1})
     /// of symbol `p & 3` land on or next to block / superblock borders (see `align_occurrences`)
     Aligned { n: usize, w: [u16; 4], p: u16, seed: u64 },
+    /// `off` background symbols, then for g = gmin..=gmax a region of g * unit symbols that starts
+    /// with exactly 8192 occurrences of `s` (interleaved with `bg` every `stride`-th position) and
+    /// is background otherwise: consecutive select samples of `s` (one per 8192 occurrences) lie
+    /// exactly g superblocks of `unit` symbols apart, for every g of the range (the span handed to
+    /// the select jump search takes every value once)
+    SampleGaps { s: u8, bg: u8, unit: u32, gmin: u16, gmax: u16, off: u32, stride: u8 },
 }
 
 impl QuadContent {
@@ -460,6 +466,21 @@ impl QuadContent {
                 }
                 let mut r = Rng::new(*seed ^ 0xa11c);
                 crate::seqgen::align_occurrences(cls, oth, &mut r)
+            }
+            QuadContent::SampleGaps { s, bg, unit, gmin, gmax, off, stride } => {
+                let (s, bg) = (s & 3, bg & 3);
+                let stride = (*stride).max(1) as usize;
+                let unit = (*unit as usize).max(1);
+                let mut v = vec![bg; *off as usize];
+                for g in *gmin..=*gmax {
+                    let start = v.len();
+                    let region = (g as usize * unit).max(8192 * stride);
+                    v.resize(start + region, bg);
+                    for j in 0..8192 {
+                        v[start + j * stride] = s;
+                    }
+                }
+                v
             }
             QuadContent::Runs { n, lg, seed } => {
                 let mut r = Rng::new(*seed);
@@ -574,6 +595,8 @@ pub struct QuadOpts {
     pub unchecked: bool,
     pub budget: usize,
     pub iterators: bool,
+    /// query select at every multiple of the sampling period (+-1), not only at the first 30
+    pub all_samples: bool,
 }
 
 pub fn check_quads(v: &QuadVal, m: &QuadModel, plan_seed: u64, o: QuadOpts, ctx: &mut Ctx) -> CheckResult {
@@ -690,9 +713,9 @@ pub fn check_quads(v: &QuadVal, m: &QuadModel, plan_seed: u64, o: QuadOpts, ctx:
                 ks.extend([0, 1, cnt - 1]);
                 let mut k = 8192;
                 let mut c = 0;
-                while k < cnt && c < 30 {
+                while k < cnt && (c < 30 || o.all_samples) {
                     ks.extend([k - 1, k, k + 1]);
-                    k += 8192 * (cnt / 8192 / 20).max(1);
+                    k += if o.all_samples { 8192 } else { 8192 * (cnt / 8192 / 20).max(1) };
                     c += 1;
                 }
                 for _ in 0..4 {
